@@ -155,6 +155,31 @@ QWidget {
 }
 """
 
+# enumerators of scoped enums (enum class) in bindings and callbacks: spelled through their class / namespace AND the enum
+SCOPED_ENUM_QML = """import qmluic.QtWidgets
+QWidget {
+    id: root
+    QCheckBox { id: cb }
+    VfWidget { id: vw }
+    QLabel {
+        id: lb
+        text: {
+            let policy = cb.checked ? Qt.HighDpiScaleFactorRoundingPolicy.Round : Qt.HighDpiScaleFactorRoundingPolicy.PassThrough;
+            return policy == Qt.HighDpiScaleFactorRoundingPolicy.Round ? "rounded" : "as is";
+        }
+        enabled: (cb.checked ? VfWidget.Level.Low : VfWidget.Level.High) != VfWidget.Level.Mid
+    }
+    QPushButton {
+        onClicked: {
+            let level = VfWidget.Level.Low;
+            if (cb.checked)
+                level = VfWidget.Level.High;
+            console.log("high:", level == VfWidget.Level.High);
+        }
+    }
+}
+"""
+
 # the only user of console.* is a CONSTANT member of a gadget group that also has a dynamic member (the group is then
 # evaluated by the support code, constant members included)
 INCLUDE_QML = """import qmluic.QtWidgets
@@ -241,6 +266,10 @@ def run(tier, seed, replay=None):
             rw.source, rw.kind, rw.bindings, rw.type_name = qml, "include-after-gadget-map", [], "MyType"
             rw.drop_rejected = lambda diags: []
             docs.append(rw)
+    raw4 = Raw()
+    raw4.source, raw4.kind, raw4.bindings, raw4.type_name = SCOPED_ENUM_QML, "scoped-enumerators", [], "MyType"
+    raw4.drop_rejected = lambda diags: []
+    docs.append(raw4)
     raw3 = Raw()
     raw3.source, raw3.kind, raw3.bindings, raw3.type_name = GADGET_PARAM_QML, "value-class-callback-parameters", [], "MyType"
     raw3.drop_rejected = lambda diags: []
